@@ -476,6 +476,26 @@ def gen_program_start_under_load(rng):
     return prog
 
 
+def gen_program_lifecycle_call_under_burst(rng):
+    """
+    A lifecycle call of the controller (start after a few pre-queued tasks) overlapped by a BURST of submissions
+    of long tasks from two other threads - many counter updates of other threads land inside one window of the
+    controller - then quiescence (the pool shrinks to min 0) and one more task the controller waits for.
+    """
+    maxt = rng.choice([1, 1, 2])
+    prog = {"max": maxt, "min": 0, "timeout": 0.01, "queue_size": 0, "controller": [], "enqueuers": []}
+    ops = prog["controller"]
+    for i in range(rng.randint(1, 2)):
+        ops.append(["enq", "c%d" % i, "ret"])
+    ops += [["go", 0], ["go", 1], ["start"], ["sleep", 300], ["enq", "last", "ret"], ["wait", "last"]]
+    for e in range(2):
+        eops = [["sleep", 3]]
+        for i in range(6):
+            eops.append(["enq", "e%d_%d" % (e, i), "sleep", 30])
+        prog["enqueuers"].append(eops)
+    return prog
+
+
 def gen_program_stop_full_queue(rng):
     """
     stop() (then a restart) on a pool whose BOUNDED task queue is full while every worker is busy, with an idle
